@@ -3,6 +3,7 @@ import FitModel.Items
 import FitModel.LatLng
 import FitModel.Encode
 import FitModel.Parse
+import FitModel.Gen.Strings
 import FitModel.Gen.Profile
 /-
   Line-protocol driver: one case per input line, one canonical result line per case.
@@ -296,8 +297,16 @@ def runEncRep (arch dump : String) : String :=
     | .error => "err"
     | .panic => "panic"
 
+/-- `strs <Type> <lo> <hi>`: String() of every value in [lo, hi], hex, comma separated -/
+def runStrs (tname lo hi : String) : String :=
+  match Gen.Str.tables.find? (fun t => t.tname.toString == tname), parseInt? lo, parseInt? hi with
+  | some T, some a, some b =>
+    joinWith "," ((Str.intRange a b).map fun i => hexOf ((Str.strOf T i).map UInt8.ofNat))
+  | _, _, _ => "bad-strs"
+
 def runLine1 (line : String) : String :=
   match splitOnChar line ' ' with
+  | ["strs", t, lo, hi] => runStrs t lo hi
   | ["encrep", _, arch, dump] => runEncRep arch dump
   | ["enc", arch, dump] => runEnc arch dump
   | ["rt", arch, dump] => runRt arch dump
